@@ -7,6 +7,7 @@ by the programs the translator extracts from `_utils.pyx` and `utils.py`
 `set a i v`    numpy `a[i] = v` (in-range; out of range is a no-op)
 `forUp lo hi`  `for k in range(lo, hi)`
 `forDown cnt`  `for k in range(cnt-1, -1, -1)`
+`sumN`, `sumList`  left-to-right sums
 -/
 namespace Nitime.Tridi
 
@@ -26,5 +27,12 @@ def forUp {σ : Type} (lo hi : Nat) (s : σ) (f : Nat → σ → σ) : σ :=
 
 def forDown {σ : Type} (cnt : Nat) (s : σ) (f : Nat → σ → σ) : σ :=
   (List.range cnt).reverse.foldl (fun s k => f k s) s
+
+/-- `Σ_{i<n} f i`, accumulated left to right from 0 -/
+def sumN [Add K] [OfNat K 0] (n : Nat) (f : Nat → K) : K :=
+  (List.range n).foldl (fun acc i => acc + f i) 0
+
+/-- `np.sum` of a vector -/
+def sumList [Add K] [OfNat K 0] (l : List K) : K := l.foldl (fun acc x => acc + x) 0
 
 end Nitime.Tridi
